@@ -15,7 +15,7 @@ Paths == {"M", "N", "O", "P1"}
 Init == /\ cmd \in ReadOnlyCmds \cup {"create", "rename"}
         /\ \E o \in {"Absent", "Other"}, n \in {"Absent", "Other"} :
               /\ fs0 = [c |-> [p \in Paths |-> CASE p = "M" -> "Old" [] p = "N" -> n [] p = "O" -> o [] OTHER -> "Other"],
-                        pend |-> [p \in Paths |-> NoPend], sz |-> [p \in Paths |-> -1]]
+                        pend |-> [p \in Paths |-> NoPend], sz |-> [p \in Paths |-> -1], loc |-> NoLoc]
               /\ prog = CASE cmd = "create" -> CreateProgram
                           [] cmd = "rename" -> RenameProgram(n # "Absent")
                           [] OTHER -> <<>>
